@@ -85,7 +85,7 @@ func (lw *leafWrapper) w2(s sdf.SDF2) sdf.SDF2 {
 	return &leaf2{inner: s, id: lw.n}
 }
 
-var model3Names = []string{"sphere-box", "csg", "extrude-poly", "screw", "extrude-bezier", "cache-extrude", "revolve", "array"}
+var model3Names = []string{"sphere-box", "csg", "extrude-poly", "screw", "extrude-bezier", "cache-extrude", "revolve", "array", "extrude-union2d", "multi-intersect"}
 
 // models that also exist in a second state reached through a setter
 var model3Variants = []string{"sphere-box+blend", "extrude-poly+twist"}
@@ -152,6 +152,25 @@ func buildModel3(name string, lw *leafWrapper) sdf.SDF3 {
 	case "revolve":
 		p := sdf.Transform2D(lw.w2(sdf.Box2D(v2.Vec{X: 3, Y: 6}, 0.5)), sdf.Translate2d(v2.Vec{X: 5, Y: 0}))
 		return must3(sdf.RevolveTheta3D(p, sdf.DtoR(270)))
+	case "extrude-union2d":
+		// A union whose box-distance pruning matters: next to the big circle's
+		// bounding-box corner the nearest box is the big circle's but the nearest
+		// surface is the medium circle's, and the two boxes are disjoint. Tall
+		// enough that a layer of the uniform renderer is several batches.
+		circle := func(r, x, y float64) sdf.SDF2 {
+			return sdf.Transform2D(must2(sdf.Circle2D(r)), sdf.Translate2d(v2.Vec{X: x, Y: y}))
+		}
+		// (the gap between the two boxes is about one cell at 18 cells, so a lattice
+		// point in the gap is a corner of a cell that the medium circle's surface crosses)
+		big := lw.w2(circle(3, 0, 0))
+		near := lw.w2(circle(0.25, 5, -3.2))
+		far := lw.w2(circle(1, 3.2, -5))
+		tiny := lw.w2(circle(0.2, 0, -6.2))
+		return sdf.Extrude3D(sdf.Union2D(big, near, far, tiny), 18)
+	case "multi-intersect":
+		s := lw.w3(must3(sdf.Box3D(v3.Vec{X: 3, Y: 3, Z: 3}, 0.4)))
+		u := sdf.Multi3D(s, v3.VecSet{{X: 0, Y: 0, Z: 0}, {X: 4, Y: 1, Z: 0}, {X: 1, Y: 4, Z: 1}})
+		return sdf.Intersect3D(u, lw.w3(must3(sdf.Sphere3D(5))))
 	case "array":
 		s := lw.w3(must3(sdf.Sphere3D(2)))
 		return sdf.Array3D(s, v3i.Vec{X: 2, Y: 2, Z: 1}, v3.Vec{X: 5, Y: 5, Z: 0})
